@@ -239,6 +239,47 @@ def bind(chk: Check, tier: str, seed: int):
                 except Exception as e:     # noqa: BLE001
                     recs.append({"kind": "msg", "parses": False, "hdrSame": False, "f": [], "back": "na", "err": f"{type(e).__name__}: {e}"[:120]})
                 meta.append((d["id"], tag + ("/used" if again else "")))
+    # messages as the gateway clients obtain them: binary packets handed to decode_tcp / decode_usb as bytes and as mutable
+    # buffers (the serial client passes slices of its receive buffer); fast messages frame by frame
+    from .. import clientrun as cr
+    from .. import fastpacket as fp
+    singles = [d for d in defs if d["fast"] == "single"][:: (3 if tier != "thorough" else 1)]
+    fasts = [d for d in defs if d["fast"] == "fast" and d["static"]][:: (9 if tier != "thorough" else 2)]
+    n_routes = 0
+    for j, d in enumerate(singles + fasts):
+        payload = corpus.build_payload(d, {}, rng)
+        src, dst, prio = 8 + j % 5, 255, 3
+        pf = (d["pgn"] >> 8) & 0xFF
+        ident = (prio << 26) | (((d["pgn"] & 0x3FF00) | dst if pf < 240 else d["pgn"]) << 8) | src
+        if d["fast"] == "single":
+            frames = [bytes(payload[:8])]
+        else:
+            frames, pos, i = [], 0, 0
+            while pos < len(payload) or i == 0:
+                cap_ = 6 if i == 0 else 7
+                frames.append(fp.can_data(j % 8, i, len(payload), list(payload[pos:pos + cap_])))
+                pos += cap_
+                i += 1
+        for route, mk in (("tcp-bytes", lambda f: fp.ebyte_packet(d["pgn"], src, dst, prio, f)),
+                          ("tcp-buffer", lambda f: bytearray(fp.ebyte_packet(d["pgn"], src, dst, prio, f))),
+                          ("usb-bytes", lambda f: bytes(cr.usb_packet(ident, f.ljust(8, b"\xff")))),
+                          ("usb-buffer", lambda f: bytearray(cr.usb_packet(ident, f.ljust(8, b"\xff"))))):
+            rdec = NMEA2000Decoder()
+            m = None
+            try:
+                for f in frames:
+                    m = (rdec.decode_tcp if route.startswith("tcp") else rdec.decode_usb)(mk(f))
+            except Exception:              # noqa: BLE001
+                continue
+            if m is None or m.id != d["id"]:
+                continue
+            try:
+                recs.append(message_record(m, d["encodable"]))
+            except Exception as e:         # noqa: BLE001
+                recs.append({"kind": "msg", "parses": False, "hdrSame": False, "f": [], "back": "na", "err": f"{type(e).__name__}: {e}"[:120]})
+            meta.append((d["id"], f"via-{route}"))
+            n_routes += 1
+    chk.add(messages_through_packet_routes=n_routes)
     drecs, dmeta = dump_histories(db, rng, wd, tier)
     nmsg = len(recs)
     recs += drecs
